@@ -96,6 +96,51 @@ def _one_patch(prop, name):
         shutil.rmtree(d, ignore_errors=True)
 
 
+def _one_benign(prop, name):
+    """an independently produced behaviour-preserving change kept under /verif/benign/<name>/: the check must stay silent"""
+    sd = os.path.join(VERIF, "benign", name)
+    d = tempfile.mkdtemp(prefix="aoself_%s_" % prop)
+    try:
+        shutil.copytree(os.path.join(REPO, "aotools"), os.path.join(d, "aotools"), ignore=shutil.ignore_patterns("__pycache__"))
+        ap = subprocess.run(["git", "apply", "--whitespace=nowarn", os.path.join(sd, "patch.diff")], cwd=d, capture_output=True, text=True)
+        if ap.returncode:
+            return dict(kind="benign-independent", idx=name, rel=name, status="not-applicable", why="patch no longer applies to the current tree")
+        env = dict(os.environ, AOTOOLS_REPO=d, VERIF_EVIDENCE_DIR=os.path.join(d, "evidence"), VERIF_TIER="quick")
+        r = subprocess.run([PY, os.path.join(VERIF, "run.py"), prop, "--tier", "quick"], env=env, capture_output=True, text=True, timeout=600)
+        rules = sorted(set(l.split()[2] for l in r.stdout.splitlines() if l.startswith("FINDING ") and len(l.split()) > 2))
+        out = dict(kind="benign-independent", idx=name, rel=name, exit=r.returncode, rules=rules, edit="benign/%s/patch.diff" % name)
+        out["status"] = "silent" if r.returncode == 0 else "FALSE-ALARM"
+        if out["status"] == "FALSE-ALARM":
+            out["output_tail"] = r.stdout[-600:]
+        return out
+    finally:
+        shutil.rmtree(d, ignore_errors=True)
+
+
+def _benign_for(prop):
+    """kept behaviour-preserving changes this property's check is replayed on: those written for the property and those on
+    which it alarmed at first contact; changes listed in benign/OPEN.json (machinery limits not yet lifted, with the reason)
+    are reported but not replayed"""
+    root = os.path.join(VERIF, "benign")
+    names, open_ = [], {}
+    try:
+        open_ = json.load(open(os.path.join(root, "OPEN.json")))
+    except (OSError, ValueError):
+        open_ = {}
+    if os.path.isdir(root):
+        for name in sorted(os.listdir(root)):
+            mp = os.path.join(root, name, "meta.json")
+            try:
+                m = json.load(open(mp))
+            except (OSError, ValueError):
+                continue
+            if m.get("property") == prop or prop in (m.get("alarms_at_first_contact") or {}):
+                if prop in (open_.get(name, {}).get("checks") or []):
+                    continue
+                names.append(name)
+    return names, open_
+
+
 def run(prop):
     t0 = time.time()
     v = _load()
@@ -120,18 +165,25 @@ def run(prop):
     with ThreadPoolExecutor(max_workers=min(16, max(1, len(jobs) + len(indep)))) as ex:
         futs = [ex.submit(_one, prop, *j) for j in jobs]
         futs2 = [ex.submit(_one_patch, prop, n) for n in indep]
+        bnames, bopen = _benign_for(prop)
+        futs3 = [ex.submit(_one_benign, prop, n) for n in bnames]
         for f in futs:
             results.append(f.result())
         ind_results = [f.result() for f in futs2]
+        ben_results = [f.result() for f in futs3]
     det = [r for r in results if r["status"] == "detected"]
     missed = [r for r in results if r["status"] == "MISSED"]
     silent = [r for r in results if r["status"] == "silent"]
     alarm = [r for r in results if r["status"] == "FALSE-ALARM"]
     na = [r for r in results if r["status"] == "not-applicable"]
+    ben_alarm = [r for r in ben_results if r["status"] == "FALSE-ALARM"]
+    alarm = alarm + ben_alarm
     ind_det = [r for r in ind_results if r["status"] == "detected"]
     ind_missed = [r for r in ind_results if r["status"] == "MISSED"]
     missed = missed + ind_missed
-    summary = {"independent_changes": len(ind_results), "independent_detected": len(ind_det),
+    summary = {"independent_benign_changes": len(ben_results), "independent_benign_silent": len([r for r in ben_results if r["status"] == "silent"]),
+               "independent_benign_open": sorted(n for n, v in bopen.items() if prop in (v.get("checks") or [])),
+               "independent_changes": len(ind_results), "independent_detected": len(ind_det),
                "independent_known_misses": [r["idx"] for r in ind_results if r["status"] == "known-miss"],
                "independent_not_applicable": [r["idx"] for r in ind_results if r["status"] == "not-applicable"],
                "independent_rules": {r["idx"]: r.get("rules") for r in ind_det},"seeded_variants": len(seeded), "seeded_detected": len(det), "seeded_missed": len(missed),
@@ -151,9 +203,10 @@ def run(prop):
         print("ANALYSIS-ERROR property=%s cannot update evidence with self-validation: %s" % (prop, e))
         return 2
     print("%s self-validation: %d/%d seeded variants detected, %d/%d benign variants silent, %d not applicable; "
-          "%d/%d independently produced changes detected (%.1fs)"
+          "%d/%d independently produced changes detected, silent on %d/%d independently produced refactorings (%.1fs)"
           % (prop, len(det), len(seeded) - len([r for r in na if r["kind"] == "seeded"]), len(silent),
-             len(benign) - len([r for r in na if r["kind"] == "benign"]), len(na), len(ind_det), len(ind_results), time.time() - t0))
+             len(benign) - len([r for r in na if r["kind"] == "benign"]), len(na), len(ind_det), len(ind_results),
+             len([r for r in ben_results if r["status"] == "silent"]), len(ben_results), time.time() - t0))
     if missed or alarm:
         for r in missed:
             print("SELFTEST-FAILURE property=%s seeded variant not detected: %s :: %s (exit %s, rules %s)"
